@@ -527,25 +527,25 @@ Section Final.
 Variable bshape : N -> N.
 
 Lemma pre_stream src dst to_send tbs commons :
-  exact_pre bshape src dst to_send tbs commons ->
+  exact_pre_any bshape src dst to_send tbs commons ->
   exists ct objs,
     common_tables src commons = Some ct /\
     (forall t, In t ct <-> common_table src commons t) /\
     emit_all src (all_q src tbs ct (common_blocks src ct) to_send) = Some objs /\
     stream src to_send tbs commons = Some objs.
 Proof.
-  intros P. destruct (common_tables_spec src commons (pre_commons_in_src _ _ _ _ _ _ P)) as (ct & E & S).
+  intros P. destruct (common_tables_spec src commons (apre_commons_in_src _ _ _ _ _ _ P)) as (ct & E & S).
   destruct (emit_all_total src (all_q src tbs ct (common_blocks src ct) to_send)) as [objs Eo].
   { intros b Hb. apply all_q_block_in in Hb. destruct Hb as (_ & t & tc & Ht & Hin).
     apply all_q_table_in in Ht. destruct Ht as (_ & _ & L & _).
-    destruct (pre_src_wf bshape _ _ _ _ _ P _ _ L) as [_ X]. auto. }
+    destruct (apre_src_wf bshape _ _ _ _ _ P _ _ L) as [_ X]. auto. }
   exists ct, objs. repeat split; auto; try apply S. rewrite stream_spec, E. auto.
 Qed.
 
 (** the receiver accepts the stream iff every block that the sender withholds as common
     but that a transmitted table uses is at the destination *)
-Theorem accept_iff src dst to_send tbs commons objs :
-  exact_pre bshape src dst to_send tbs commons ->
+Theorem accept_iff_any src dst to_send tbs commons objs :
+  exact_pre_any bshape src dst to_send tbs commons ->
   stream src to_send tbs commons = Some objs ->
   ((exists d', recv_all bshape dst objs = ROk d') <->
    (forall b, needed_common_block src commons objs b -> has_block dst b = true)).
@@ -560,45 +560,44 @@ Proof.
     { eapply stream_block_in; eauto. exists z. rewrite El. apply in_app_iff; auto. }
     apply all_q_block_in in Y. tauto.
   - intros H. destruct (accept src tbs bshape to_send ct (common_blocks src ct) dst) as (o2 & d' & E1 & E2).
-    + apply (pre_src_wf _ _ _ _ _ _ P).
-    + apply (pre_parent_first _ _ _ _ _ _ P).
+    + apply (apre_src_wf _ _ _ _ _ _ P).
+    + apply (apre_parent_first _ _ _ _ _ _ P).
     + intros b Hb (t & tc & Ht & Hin). apply H. split; [rewrite Ecb; auto|]. exists t, tc. split; auto.
       eapply stream_table_in; eauto.
     + rewrite Em in E1. inversion E1; subst. eauto.
 Qed.
 
 Lemma full_needed src dst to_send tbs commons :
-  exact_pre bshape src dst to_send tbs commons -> commons_full src dst commons ->
+  exact_pre_any bshape src dst to_send tbs commons -> commons_full src dst commons ->
   forall b, In b (initial_common_blocks src commons) -> has_block dst b = true.
 Proof.
   intros P F b Hb. destruct (pre_stream _ _ _ _ _ P) as (ct & _ & E & S & _).
   unfold initial_common_blocks in Hb. rewrite E in Hb. apply common_blocks_spec in Hb.
   destruct Hb as (t & tc & Ht & L & Hin). apply S in Ht. pose proof (F _ Ht) as X.
   apply has_true in X. destruct X as [tc' X].
-  destruct (pre_compat _ _ _ _ _ _ P) as (_ & C2 & _). rewrite (C2 _ _ _ L X) in *.
-  destruct (pre_dst_wf _ _ _ _ _ _ P _ _ X) as (_ & B & _).
+  destruct (apre_compat _ _ _ _ _ _ P) as (_ & C2 & _). rewrite (C2 _ _ _ L X) in *.
+  destruct (apre_commons_usable _ _ _ _ _ _ P _ _ Ht X) as (_ & B & _).
   unfold tbl_blocks in Hin. apply in_map_iff in Hin. destruct Hin as [[b' x] [Eb Hin]]. simpl in Eb; subst.
   destruct (B _ _ Hin); auto.
 Qed.
 
-Theorem exact_stream src dst to_send tbs commons :
-  exact_pre bshape src dst to_send tbs commons -> commons_full src dst commons ->
+Theorem exact_stream_any src dst to_send tbs commons :
+  exact_pre_any bshape src dst to_send tbs commons -> commons_full src dst commons ->
   exists objs d',
     stream src to_send tbs commons = Some objs /\
     recv_all bshape dst objs = ROk d' /\
-    exact_post bshape src dst to_send tbs d' /\
+    exact_post_any bshape src dst to_send tbs d' /\
     blocks_before_tables (initial_common_blocks src commons) objs /\
     table_before_commits objs /\ commits_in_order to_send objs /\ parents_before_children dst objs.
 Proof.
   intros P F. destruct (pre_stream _ _ _ _ _ P) as (ct & objs & E & S & Em & Hs).
   assert (Ecb : initial_common_blocks src commons = common_blocks src ct) by (unfold initial_common_blocks; rewrite E; auto).
-  destruct (proj2 (accept_iff _ _ _ _ _ _ P Hs)) as [d' Hok].
+  destruct (proj2 (accept_iff_any _ _ _ _ _ _ P Hs)) as [d' Hok].
   { intros b [Hb _]. eapply full_needed; eauto. }
   exists objs, d'. split; auto. split; auto.
-  pose proof (stream_from_src src tbs _ _ _ _ (pre_sent_in_src _ _ _ _ _ _ P) Em) as FS.
-  pose proof (compat_recv src bshape _ _ _ (pre_compat _ _ _ _ _ _ P) FS Hok) as Cd'.
-  pose proof (closed_recv_all bshape dst objs (pre_dst_closed _ _ _ _ _ _ P)) as Cl. rewrite Hok in Cl; simpl in Cl.
-  pose proof (tableswf_recv_all bshape dst objs (pre_dst_wf _ _ _ _ _ _ P)) as Wf. rewrite Hok in Wf; simpl in Wf.
+  pose proof (stream_from_src src tbs _ _ _ _ (apre_sent_in_src _ _ _ _ _ _ P) Em) as FS.
+  pose proof (compat_recv src bshape _ _ _ (apre_compat _ _ _ _ _ _ P) FS Hok) as Cd'.
+  pose proof (closed_recv_all bshape dst objs (apre_dst_closed _ _ _ _ _ _ P)) as Cl. rewrite Hok in Cl; simpl in Cl.
   pose proof (recv_all_ext bshape dst objs) as X. rewrite Hok in X; simpl in X.
   destruct Cd' as (Cc & Ct & Cb).
   (* a sent table is at the destination afterwards, with the source's content *)
@@ -609,6 +608,16 @@ Proof.
       - eapply ok_has_table; eauto. right. exists tc. eapply stream_table_in; eauto.
       - destruct X. apply ext_t. apply F. apply S; auto. }
     apply has_true in Hh. destruct Hh as [y Hy]. rewrite (Ct _ _ _ L Hy). auto. }
+  (* ... and usable: rebuilt by this receive, or the usable table of a common commit *)
+  assert (Wf : forall t tc, sent_table src to_send tbs t tc -> table_ok bshape d' t tc).
+  { intros t tc (c & cc & Hin & Et & M & L). subst t.
+    destruct (all_q_table_sent src tbs ct (common_blocks src ct) _ _ _ _ Hin M L) as [Q|Q].
+    - assert (Q' : In (OTable (c_table cc) tc) objs) by (eapply stream_table_in; eauto).
+      apply in_split in Q'. destruct Q' as (l1 & l2 & El).
+      eapply received_usable; eauto.
+    - apply S in Q. pose proof (F _ Q) as Hh. apply has_true in Hh. destruct Hh as [y Hy].
+      destruct (apre_compat _ _ _ _ _ _ P) as (_ & C2 & _). rewrite <- (C2 _ _ _ L Hy) in Hy.
+      eapply table_ok_ext; eauto. eapply (apre_commons_usable _ _ _ _ _ _ P); eauto. }
   assert (ST : forall t tc, In (OTable t tc) objs -> sent_table src to_send tbs t tc).
   { intros t tc H. eapply stream_table_in in H; eauto. apply all_q_table_in in H.
     destruct H as (_ & M & L & c & cc & Hin & Et). exists c, cc. auto. }
@@ -617,21 +626,22 @@ Proof.
     intros c cc Hin. assert (Hh : has_commit d' c = true).
     { eapply ok_has_commit; eauto. right. exists cc. eapply stream_commit_in; eauto. }
     apply has_true in Hh. destruct Hh as [y Hy].
-    rewrite (Cc _ _ _ (pre_sent_in_src _ _ _ _ _ _ P _ _ Hin) Hy). auto.
+    rewrite (Cc _ _ _ (apre_sent_in_src _ _ _ _ _ _ P _ _ Hin) Hy). auto.
   - exact PT.
   - (* post_blocks *)
-    intros t tc b Hs' Hb. pose proof (PT _ _ Hs') as L'.
-    destruct (Wf _ _ L') as (_ & B & _).
+    intros t tc b Hs' Hb.
+    destruct (Wf _ _ Hs') as (_ & B & _).
     unfold tbl_blocks in Hb. apply in_map_iff in Hb. destruct Hb as [[b' x] [Eb Hin]]. simpl in Eb; subst.
     destruct (B _ _ Hin) as [Hh _]. split; auto.
     destruct Hs' as (c & cc & _ & _ & _ & L).
-    destruct (pre_src_wf _ _ _ _ _ _ P _ _ L) as [_ Hsb].
+    destruct (apre_src_wf _ _ _ _ _ _ P _ _ L) as [_ Hsb].
     assert (Hs2 : has_block src b = true) by (apply Hsb; unfold tbl_blocks; apply in_map_iff; exists (b, x); auto).
     apply has_true in Hh. destruct Hh as [y Hy]. apply has_true in Hs2. destruct Hs2 as [x' Hx].
     rewrite Hy, Hx. f_equal. symmetry. eapply Cb; eauto.
   - repeat split; auto.
   - exact Cl.
   - exact Wf.
+  - intros W. pose proof (tableswf_recv_all bshape dst objs W) as W'. rewrite Hok in W'. exact W'.
   - (* frame_commits *)
     intros c. rewrite (ok_has_commit bshape _ _ _ Hok). split; intros [H|H]; auto; right.
     + destruct H as [cc H]. eapply stream_commit_in in H; eauto. apply in_map_iff. exists (c, cc); auto.
@@ -646,36 +656,36 @@ Proof.
       eapply stream_block_in in H; eauto. apply all_q_block_in in H. destruct H as (_ & t & tc & Ht & Hb).
       exists t, tc. split; auto. apply ST. eapply stream_table_in; eauto.
     + intros [H|(t & tc & Hs' & Hb)]; [destruct X; auto|].
-      pose proof (PT _ _ Hs') as L'. destruct (Wf _ _ L') as (_ & B & _).
+      destruct (Wf _ _ Hs') as (_ & B & _).
       unfold tbl_blocks in Hb. apply in_map_iff in Hb. destruct Hb as [[b' x] [Eb Hin]]. simpl in Eb; subst.
       destruct (B _ _ Hin); auto.
   - (* frame_blkidx *)
     intros x. split.
     + intros H. apply (ok_blkidx bshape _ _ _ Hok) in H. destruct H as [H|(t & tc & Ht & Hx)]; auto. right. exists t, tc; auto.
     + intros [H|(t & tc & Hs' & Hx)]; [destruct X; auto|].
-      pose proof (PT _ _ Hs') as L'. destruct (Wf _ _ L') as (_ & B & _).
+      destruct (Wf _ _ Hs') as (_ & B & _).
       apply in_map_iff in Hx. destruct Hx as [[b x'] [Ex Hin]]. simpl in Ex; subst. destruct (B _ _ Hin); auto.
   - (* frame_tblidx *)
     intros t. split.
     + intros H. apply (ok_tblidx bshape _ _ _ Hok) in H. destruct H as [H|[tc H]]; auto. right. exists tc; auto.
-    + intros [H|[tc Hs']]; [destruct X; auto|]. pose proof (PT _ _ Hs') as L'. destruct (Wf _ _ L') as (_ & _ & B & _); auto.
+    + intros [H|[tc Hs']]; [destruct X; auto|]. destruct (Wf _ _ Hs') as (_ & _ & B & _); auto.
   - (* frame_prof *)
     intros t. split.
     + intros H. apply (ok_prof bshape _ _ _ Hok) in H. destruct H as [H|[tc H]]; auto. right. exists tc; auto.
-    + intros [H|[tc Hs']]; [destruct X; auto|]. pose proof (PT _ _ Hs') as L'. destruct (Wf _ _ L') as (_ & _ & _ & B); auto.
+    + intros [H|[tc Hs']]; [destruct X; auto|]. destruct (Wf _ _ Hs') as (_ & _ & _ & B); auto.
   - (* keep_commits *)
     intros c H. pose proof H as H'. destruct X. apply ext_c in H'. apply has_true in H. apply has_true in H'.
     destruct H as [x Hx], H' as [y Hy]. rewrite Hx, Hy. f_equal.
     destruct (ok_lookup_commit bshape _ _ _ Hok _ _ Hy) as [Q|Q]; [congruence|].
-    destruct FS as (F1 & _). apply F1 in Q. destruct (pre_compat _ _ _ _ _ _ P) as (C1 & _). eauto.
+    destruct FS as (F1 & _). apply F1 in Q. destruct (apre_compat _ _ _ _ _ _ P) as (C1 & _). eauto.
   - intros c H. pose proof H as H'. destruct X. apply ext_t in H'. apply has_true in H. apply has_true in H'.
     destruct H as [x Hx], H' as [y Hy]. rewrite Hx, Hy. f_equal.
     destruct (ok_lookup_table bshape _ _ _ Hok _ _ Hy) as [Q|Q]; [congruence|].
-    destruct FS as (_ & F1 & _). apply F1 in Q. destruct (pre_compat _ _ _ _ _ _ P) as (_ & C1 & _). eauto.
+    destruct FS as (_ & F1 & _). apply F1 in Q. destruct (apre_compat _ _ _ _ _ _ P) as (_ & C1 & _). eauto.
   - intros c H. pose proof H as H'. destruct X. apply ext_b in H'. apply has_true in H. apply has_true in H'.
     destruct H as [x Hx], H' as [y Hy]. rewrite Hx, Hy. f_equal.
     destruct (ok_lookup_block bshape _ _ _ Hok _ _ Hy) as [Q|Q]; [congruence|].
-    destruct FS as (_ & _ & F1). apply F1 in Q. destruct (pre_compat _ _ _ _ _ _ P) as (_ & _ & C1). eauto.
+    destruct FS as (_ & _ & F1). apply F1 in Q. destruct (apre_compat _ _ _ _ _ _ P) as (_ & _ & C1). eauto.
   - (* order *)
     rewrite Ecb. repeat split.
     + eapply stream_blocks_before_tables; eauto.
@@ -684,7 +694,7 @@ Proof.
     + intros l1 c cc l2 El p Hp.
       pose proof (stream_commits_in_order src tbs _ _ _ _ Em) as O. unfold commits_in_order in O.
       rewrite El, flat_map_app in O. simpl in O.
-      destruct (pre_parent_first _ _ _ _ _ _ P _ _ _ _ (eq_sym O) p Hp) as [Y|Y]; auto.
+      destruct (apre_parent_first _ _ _ _ _ _ P _ _ _ _ (eq_sym O) p Hp) as [Y|Y]; auto.
       left. apply in_map_iff in Y. destruct Y as [[p' pc] [Ep Y]]. simpl in Ep; subst. exists pc.
       apply in_flat_map in Y. destruct Y as (o & Ho & Y). destruct o; simpl in Y; try tauto.
       destruct Y as [Y|[]]. inversion Y; subst; auto.
@@ -703,23 +713,23 @@ Proof. destruct r; simpl; intros H; inversion H; eauto. Qed.
 Lemma tstate_err r d : tstate r = Some (RErr d) -> exists ps, r = TRecvErr d ps.
 Proof. destruct r; simpl; intros H; inversion H; eauto. Qed.
 
-Theorem exact_transfer src dst to_send tbs commons max :
-  exact_pre bshape src dst to_send tbs commons -> commons_full src dst commons ->
+Theorem exact_transfer_any src dst to_send tbs commons max :
+  exact_pre_any bshape src dst to_send tbs commons -> commons_full src dst commons ->
   exists objs d' packs,
     stream src to_send tbs commons = Some objs /\
     transfer bshape size src to_send tbs commons max dst = TDone d' packs /\
     packs_of objs packs /\
-    exact_post bshape src dst to_send tbs d'.
+    exact_post_any bshape src dst to_send tbs d'.
 Proof.
-  intros P F. destruct (exact_stream bshape _ _ _ _ _ P F) as (objs & d' & Hs & Hok & Post & _).
+  intros P F. destruct (exact_stream_any bshape _ _ _ _ _ P F) as (objs & d' & Hs & Hok & Post & _).
   destruct (transfer_spec src bshape size to_send tbs commons max dst objs Hs) as [T1 T2].
   rewrite Hok in T1. apply tstate_done in T1. destruct T1 as [ps T1].
   exists objs, d', ps. split; [auto|]. split; [auto|]. split; [|exact Post].
   specialize (T2 d' Hok). rewrite T1 in T2. exact T2.
 Qed.
 
-Theorem order_transfer src dst to_send tbs commons max :
-  exact_pre bshape src dst to_send tbs commons -> commons_full src dst commons ->
+Theorem order_transfer_any src dst to_send tbs commons max :
+  exact_pre_any bshape src dst to_send tbs commons -> commons_full src dst commons ->
   exists d' packs,
     transfer bshape size src to_send tbs commons max dst = TDone d' packs /\
     blocks_before_tables (initial_common_blocks src commons) (concat packs) /\
@@ -727,7 +737,7 @@ Theorem order_transfer src dst to_send tbs commons max :
     commits_in_order to_send (concat packs) /\
     parents_before_children dst (concat packs).
 Proof.
-  intros P F. destruct (exact_stream bshape _ _ _ _ _ P F) as (objs & d' & Hs & Hok & _ & O1 & O2 & O3 & O4).
+  intros P F. destruct (exact_stream_any bshape _ _ _ _ _ P F) as (objs & d' & Hs & Hok & _ & O1 & O2 & O3 & O4).
   destruct (transfer_spec src bshape size to_send tbs commons max dst objs Hs) as [T1 T2].
   rewrite Hok in T1. apply tstate_done in T1. destruct T1 as [ps T1].
   specialize (T2 d' Hok). rewrite T1 in T2. simpl in T2. destruct T2 as (T2 & _).
@@ -761,48 +771,50 @@ Variable size : obj -> N.
 
 (* loud case: a transmitted table uses a block the sender withholds as common and the
    destination lacks: the receiver rejects, and the state it stops in is clean *)
-Theorem shallow_reject src dst to_send tbs commons objs max :
-  exact_pre bshape src dst to_send tbs commons ->
+Theorem shallow_reject_any src dst to_send tbs commons objs max :
+  exact_pre_any bshape src dst to_send tbs commons ->
   stream src to_send tbs commons = Some objs ->
+  TablesWF bshape dst ->
   (exists b, needed_common_block src commons objs b /\ has_block dst b = false) ->
   exists d_err packs,
     transfer bshape size src to_send tbs commons max dst = TRecvErr d_err packs /\
     recv_all bshape dst objs = RErr d_err /\
     Closed d_err /\ TablesWF bshape d_err /\ ext dst d_err.
 Proof.
-  intros P Hs (b & Hn & Hb).
+  intros P Hs HW (b & Hn & Hb).
   destruct (recv_all bshape dst objs) as [d'|d_err] eqn:E.
   - exfalso. assert (X : exists d', recv_all bshape dst objs = ROk d') by eauto.
-    destruct (accept_iff bshape _ _ _ _ _ _ P Hs) as [A1 _]. rewrite (A1 X b Hn) in Hb. discriminate.
+    destruct (accept_iff_any bshape _ _ _ _ _ _ P Hs) as [A1 _]. rewrite (A1 X b Hn) in Hb. discriminate.
   - pose proof (split_independent bshape size _ dst _ _ _ _ Hs max) as T. rewrite E in T.
     apply tstate_err in T. destruct T as [ps T]. exists d_err, ps. split; [auto|]. split; [auto|]. split; [|split].
-    + pose proof (closed_recv_all bshape dst objs (pre_dst_closed _ _ _ _ _ _ P)) as C. rewrite E in C. auto.
-    + pose proof (tableswf_recv_all bshape dst objs (pre_dst_wf _ _ _ _ _ _ P)) as C. rewrite E in C. auto.
+    + pose proof (closed_recv_all bshape dst objs (apre_dst_closed _ _ _ _ _ _ P)) as C. rewrite E in C. auto.
+    + pose proof (tableswf_recv_all bshape dst objs HW) as C. rewrite E in C. auto.
     + pose proof (recv_all_ext bshape dst objs) as C. rewrite E in C. auto.
 Qed.
 
-Theorem shallow_accept src dst to_send tbs commons objs max :
-  exact_pre bshape src dst to_send tbs commons ->
+Theorem shallow_accept_any src dst to_send tbs commons objs max :
+  exact_pre_any bshape src dst to_send tbs commons ->
   stream src to_send tbs commons = Some objs ->
+  TablesWF bshape dst ->
   (forall b, needed_common_block src commons objs b -> has_block dst b = true) ->
   exists d' packs,
     transfer bshape size src to_send tbs commons max dst = TDone d' packs /\
     recv_all bshape dst objs = ROk d' /\
     Closed d' /\ TablesWF bshape d' /\ ext dst d'.
 Proof.
-  intros P Hs H. destruct (accept_iff bshape _ _ _ _ _ _ P Hs) as [_ A2]. destruct (A2 H) as [d' E].
+  intros P Hs HW H. destruct (accept_iff_any bshape _ _ _ _ _ _ P Hs) as [_ A2]. destruct (A2 H) as [d' E].
   pose proof (split_independent bshape size _ dst _ _ _ _ Hs max) as T. rewrite E in T.
   apply tstate_done in T. destruct T as [ps T]. exists d', ps. split; [auto|]. split; [auto|]. split; [|split].
-  - pose proof (closed_recv_all bshape dst objs (pre_dst_closed _ _ _ _ _ _ P)) as C. rewrite E in C. auto.
-  - pose proof (tableswf_recv_all bshape dst objs (pre_dst_wf _ _ _ _ _ _ P)) as C. rewrite E in C. auto.
+  - pose proof (closed_recv_all bshape dst objs (apre_dst_closed _ _ _ _ _ _ P)) as C. rewrite E in C. auto.
+  - pose proof (tableswf_recv_all bshape dst objs HW) as C. rewrite E in C. auto.
   - pose proof (recv_all_ext bshape dst objs) as C. rewrite E in C. auto.
 Qed.
 
 (* silent case: the table of a declared-common commit is never transmitted; if the
    destination lacks it, it still lacks it after a successful transfer, even when a sent
    commit carries that very table and it is in tablesToSend *)
-Theorem shallow_silent src dst to_send tbs commons objs d' t :
-  exact_pre bshape src dst to_send tbs commons ->
+Theorem shallow_silent_any src dst to_send tbs commons objs d' t :
+  exact_pre_any bshape src dst to_send tbs commons ->
   stream src to_send tbs commons = Some objs ->
   recv_all bshape dst objs = ROk d' ->
   common_table src commons t -> has_table dst t = false -> has_table d' t = false.
@@ -835,6 +847,70 @@ Proof.
   destruct (H pre c cc post E p Hp) as [X|(c0 & Hin & Ha)]; auto.
   right. eapply anc_present; eauto.
 Qed.
+
+(** * The same for a destination all of whose tables are usable (the original statements) *)
+
+Lemma pre_any_of_pre bshape src dst to_send tbs commons :
+  exact_pre bshape src dst to_send tbs commons -> exact_pre_any bshape src dst to_send tbs commons.
+Proof.
+  intros [A B C D E F G]. split; auto.
+Qed.
+
+Lemma post_of_post_any bshape src dst to_send tbs d' :
+  TablesWF bshape dst -> exact_post_any bshape src dst to_send tbs d' -> exact_post bshape src dst to_send tbs d'.
+Proof.
+  intros W P. destruct P. split; auto.
+Qed.
+
+Theorem accept_iff bshape src dst to_send tbs commons objs :
+  exact_pre bshape src dst to_send tbs commons ->
+  stream src to_send tbs commons = Some objs ->
+  ((exists d', recv_all bshape dst objs = ROk d') <->
+   (forall b, needed_common_block src commons objs b -> has_block dst b = true)).
+Proof. intros P. apply accept_iff_any. apply pre_any_of_pre; auto. Qed.
+
+Theorem exact_transfer bshape size src dst to_send tbs commons max :
+  exact_pre bshape src dst to_send tbs commons -> commons_full src dst commons ->
+  exists objs d' packs,
+    stream src to_send tbs commons = Some objs /\
+    transfer bshape size src to_send tbs commons max dst = TDone d' packs /\
+    packs_of objs packs /\
+    exact_post bshape src dst to_send tbs d'.
+Proof.
+  intros P F. destruct (exact_transfer_any bshape size _ _ _ _ _ max (pre_any_of_pre _ _ _ _ _ _ P) F)
+    as (objs & d' & packs & A & B & C & D).
+  exists objs, d', packs. split; [auto|]. split; [auto|]. split; [auto|].
+  apply post_of_post_any; auto. apply (pre_dst_wf _ _ _ _ _ _ P).
+Qed.
+
+Theorem order_transfer bshape size src dst to_send tbs commons max :
+  exact_pre bshape src dst to_send tbs commons -> commons_full src dst commons ->
+  exists d' packs,
+    transfer bshape size src to_send tbs commons max dst = TDone d' packs /\
+    blocks_before_tables (initial_common_blocks src commons) (concat packs) /\
+    table_before_commits (concat packs) /\
+    commits_in_order to_send (concat packs) /\
+    parents_before_children dst (concat packs).
+Proof. intros P. apply order_transfer_any. apply pre_any_of_pre; auto. Qed.
+
+Theorem shallow_reject bshape size src dst to_send tbs commons objs max :
+  exact_pre bshape src dst to_send tbs commons ->
+  stream src to_send tbs commons = Some objs ->
+  (exists b, needed_common_block src commons objs b /\ has_block dst b = false) ->
+  exists d_err packs,
+    transfer bshape size src to_send tbs commons max dst = TRecvErr d_err packs /\
+    recv_all bshape dst objs = RErr d_err /\
+    Closed d_err /\ TablesWF bshape d_err /\ ext dst d_err.
+Proof.
+  intros P Hs. apply shallow_reject_any; auto using pre_any_of_pre. apply (pre_dst_wf _ _ _ _ _ _ P).
+Qed.
+
+Theorem shallow_silent bshape src dst to_send tbs commons objs d' t :
+  exact_pre bshape src dst to_send tbs commons ->
+  stream src to_send tbs commons = Some objs ->
+  recv_all bshape dst objs = ROk d' ->
+  common_table src commons t -> has_table dst t = false -> has_table d' t = false.
+Proof. intros P. apply shallow_silent_any. apply pre_any_of_pre; auto. Qed.
 
 (** * Non-vacuity: two commits whose tables share their first block, size limit 1 *)
 
@@ -876,4 +952,25 @@ Lemma runs :
              TDone d' [[OBlock 1 101]; [OBlock 2 102]; [OTable 10 T10]; [OCommit 0 C0];
                        [OBlock 3 103]; [OTable 11 T11]; [OCommit 1 C1]].
 Proof. eexists. vm_compute. reflexivity. Qed.
+
+(* the same transfer into a destination that already holds the table object of T10 alone
+   (no blocks, no block indices, no table index, no profile) and a table index for T11
+   without the table: not TablesWF, still within the preconditions *)
+Definition dst_partial := mkRepo [] [(10, T10)] [] [] [11] [].
+
+Lemma pre_partial : exact_pre_any sh src dst_partial to_send [10; 11] [].
+Proof.
+  destruct pre as [A B C D E F G]. split; auto.
+  - intros t tc (c & cc & [] & _).
+  - repeat split; intros k x y H1 H2; simpl in *; try discriminate.
+    destruct (k =? 10); [congruence|discriminate].
+Qed.
+
+Lemma not_wf_partial : ~ TablesWF sh dst_partial.
+Proof.
+  intros W. destruct (W 10 T10 eq_refl) as (_ & _ & H & _). simpl in H. destruct H as [H|[]]. discriminate.
+Qed.
+
+Lemma full_partial : commons_full src dst_partial [].
+Proof. intros t (c & cc & [] & _). Qed.
 End Example.
